@@ -473,3 +473,40 @@ def g_dec(rng, fmts=('f64', 'f32'), extra=0):
             k = rng.range(lo, hi)
             out.append(PF(fmt, str(rng.range(10, 9999)), '', k, 'G-DEC/multi'))
     return out
+
+
+def g_zlimb(rng, n, fmts=('f64',)):
+    """slow-path inputs whose big integer has zero (or tiny) low limbs and needs a power >= 5^135:
+    digits N = A * 2^(64 j) chosen so that N * 10^E is within ~2^-100 (relative) of a rounding
+    boundary (so the extended-precision stage declines), E in 135..250.  Exercises the limb-skipping
+    branches of long multiplication and vector growth by more than one limb."""
+    out = []
+    tries = 0
+    while len(out) < n and tries < 20 * n:
+        tries += 1
+        fmt = rng.choice(fmts)
+        F = FMT[fmt]
+        p, emax = F['p'], F['emax']
+        if fmt == 'f32':
+            continue
+        E = rng.range(135, 250)
+        j = rng.range(1, 6)
+        lo2 = (E * 333) // 100 + 64 * j + 52
+        if lo2 > emax - p - 2:
+            continue
+        e2 = rng.range(lo2, emax - p - 2)          # boundary (2b+1) * 2^(e2-1), integer
+        b = (1 << (p - 1)) + rng.bits(p - 1)
+        mid = (2 * b + 1) << (e2 - 1)
+        q = mid // (10 ** E)
+        if q >> (64 * j + 100) == 0:
+            continue
+        A = q >> (64 * j)
+        for dA in (0, 1):
+            N = (A + dA) << (64 * j)
+            if rng.below(3) == 0:
+                N += rng.range(1, 90)            # tiny low limb instead of zero
+            s_ = str(N)
+            i, f, e = split_decimal(s_, E, rng, rng.choice([0, 0, 1]))
+            if -2 ** 31 <= e < 2 ** 31:
+                out.append(PF(fmt, i, f, e, 'G-ZLIMB'))
+    return out
